@@ -41,6 +41,70 @@ PROPS = {
         "level_text": "Machine-checked theorems (Lean 4) for every line and skip: reported ranges form a chain skip <= s1 <= e1 <= s2 <= e2 ..., tokens start on non-blank characters, an error position is never before the end of the last token; character-boundary alignment is structural in the model (positions are UTF-8 lengths of whole-character prefixes). Upper bounds, strictness and re-tokenization of a range are not yet proved: the check rests for them on the correspondence slice ((token, range) pairs equal between implementation and model; exhaustive over all strings up to length 3/5 of a 17-symbol alphabet) and on the implementation oracle (bounds, boundaries, order, blank ends, re-tokenization of every slice).",
         "level_note": "PARTIAL proof (see not_yet_proved in evidence). Trusted: Lean kernel, extractor, hand-written tokenizer model validated by sampling and bounded exhaustive enumeration.",
     },
+    "C01": {
+        "what": "failures of host calls are values after which the interpreter is idle and locatable; reply/break/seed cannot fail; protocol assertions; the nesting counter is balanced on every path and refuses at the cap 48 (bounded native depth)",
+        "theorems": ["start_error_is_value", "cont_error_is_value", "error_located", "reply_total", "break_total", "seed_total", "start_assert", "nesting_limit", "nested_refuses_at_cap", "nested_balanced"],
+        "open": ["WF invariant (every stored location names an existing line; indexes agree; caps) preserved by every protocol-respecting call", "no_panic: every modelled panic site unreachable under WF", "caret_total", "iteration budgets never run out (termination in the model)"],
+        "slices": ["c01"],
+        "level_text": "Machine-checked theorems (Lean 4), for every state/line/reply/seed: an error of start/continue is a value after which the state is Idle and carries a location; provide_input, break and randomize cannot fail; nested evaluation restores the nesting counter on both the Ok and the Err path and refuses at the extracted cap 48, which bounds native recursion depth by a constant. The global no-panic invariant over arbitrary call sequences is NOT yet proved; there the check rests on the correspondence slice (state-aware random protocol walks with boundary lines, 30..1000-deep nesting, full state snapshots and caret rendering compared between implementation and model, where every Rust panic site is an explicit value) and on the implementation oracle (no panic / abort, Idle after error).",
+        "level_note": "PARTIAL proof. Trusted: Lean kernel; hand-written model validated by sampling; bytes of native stack per nesting level are measured, not proved (cap 48 x ~15 KB debug); allocation failure outside the model.",
+    },
+    "C07": {
+        "what": "break records the interrupted location as breakpoint and keeps the stack; CONT restores the cursor; break followed by CONT's restore is the identity on everything the program observes",
+        "theorems": ["break_records", "cont_restores", "break_cont"],
+        "open": ["lift over whole runs (transcript equality for any set of break points)", "inspect_pure", "assign_at_stop"],
+        "slices": ["c07"],
+        "level_text": "Machine-checked theorems (Lean 4), for every state: break at a numbered location then CONT's restore gives back exactly the interrupted state except the BREAK record, the dead immediate line and the host state. The lift to whole runs and the inspection / assignment clauses are not yet proved; for them the check rests on the correspondence slice and the metamorphic oracle on the implementation (uninterrupted run vs run with host breaks at random turn boundaries + side-effect-free inspection incl. failing FN calls + CONT; assignment at STOP vs assignment in place).",
+        "level_note": "PARTIAL proof. Known finding KF-ELSE-RESUME (THEN STOP ... ELSE) recorded in known-findings.json.",
+    },
+    "C08": {
+        "what": "INPUT with no pending reply rewinds onto the INPUT token and awaits input, changing nothing else; the reply is parsed by the DATA item parser; text to a numeric variable is the REENTER case; a suitable item is storable",
+        "theorems": ["find_input", "input_suspend", "reply_parse", "text_to_numeric", "item_suits"],
+        "open": ["input_resume_ok (turn with a suitable reply = assignment, EXTRA IGNORED iff surplus)", "input_reenter (state unchanged but REENTER)", "placement independence (THEN/ELSE/loop/subroutine)"],
+        "slices": ["c08"],
+        "level_text": "Machine-checked theorems (Lean 4), for every state and token list: reaching INPUT without a reply yields AwaitingInput with the cursor back on the INPUT token and nothing else changed; the reply is read by the DATA parser; coercion cases. Resume/REENTER turn-level theorems not yet proved; the check rests for them on the correspondence slice (9 placements x numeric/string target x 21 reply texts, snapshots before/after each reply) and the oracle (REENTER / EXTRA IGNORED records, state equality across a REENTER).",
+        "level_note": "PARTIAL proof. Known finding KF-ELSE-RESUME (THEN INPUT ... ELSE) recorded in known-findings.json and exercised by the slice.",
+    },
+    "C09": {
+        "what": "anatomy of a host call: exactly one statement-evaluator invocation per turn, trace record first and at most one per activation, nested activations cost a nesting level and are refused at the cap",
+        "theorems": ["turn_anatomy", "continue_is_one_turn", "statement_anatomy", "trace_at_most_one", "nested_statement_costs_a_level"],
+        "open": ["work_bound: token reads per call <= K*len + K' for programs without user functions", "trace_count = chain length"],
+        "slices": ["c09"],
+        "level_text": "Machine-checked theorems (Lean 4) exhibiting the structure of a turn (one statement-evaluator call, then line sequencing), that a statement activation emits at most one trace record before dispatching, and that the only second activation inside a call (under THEN/ELSE) costs a nesting level and fails at the cap. The per-call work bound is not yet proved: the check rests on the correspondence slice (the hook's token-read counter must equal the model's after every call, incl. non-terminating programs) and the oracle (<=1 Print record and <=1+#IF Trace records per call; reads <= 4*len+40).",
+        "level_note": "PARTIAL proof. Hook: verif-hooks token-read counter.",
+    },
+    "C10": {
+        "what": "the RUN command cannot distinguish a state with arbitrary session history from a fresh interpreter holding the same program, generator state and flags",
+        "theorems": ["reset_forgets", "run_clean", "run_resets_everything"],
+        "open": ["nesting = 0 at every call boundary as a reachable-state invariant (hypothesis of run_clean; proved per nested evaluation in C01.nested_balanced)"],
+        "slices": ["c10"],
+        "level_text": "Machine-checked theorem (Lean 4): for EVERY idle state sigma (any variables, arrays, loops, stack, functions, data cursor, breakpoint, location, immediate line, pending reply) whose nesting counter is 0, start_evaluating(RUN) on sigma equals start_evaluating(RUN) on a fresh interpreter with the same lines, rng state, flags and untaken output - same outcome and same resulting state, hence the same future. Correspondence: random histories then RUN vs fresh+RUN, implementation vs model, with transcript and final-snapshot equality as oracle on the implementation.",
+        "level_note": "Trusted: Lean kernel; hand-written model validated by sampling. The hypothesis nesting = 0 is an invariant of call boundaries shown per nested evaluation (C01) but not yet lifted to all reachable states.",
+    },
+    "C11": {
+        "what": "a successful edit yields exactly the state with breakpoint, stack, loops, functions, data cursor cleared and variables/arrays kept; the probes CONT/RETURN/NEXT/READ/FN then behave as specified; a rejected edit changes none of them",
+        "theorems": ["edit_result", "edit_clears", "cont_after_edit", "return_without_gosub", "next_without_for", "read_restarts", "function_gone", "failed_edit_inert"],
+        "open": [],
+        "slices": ["c11"],
+        "level_text": "Machine-checked theorems (Lean 4), for every state at which a line can be entered: the exact post-edit state; CONT gives CAN'T CONTINUE, RETURN gives RETURN WITHOUT GOSUB, NEXT gives NEXT WITHOUT FOR, READ rebuilds the cursor from the edited program, a former function is no function; a rejected edit leaves breakpoint, loops, functions, data cursor, lines, variables, arrays (and the stack when a breakpoint is pending) untouched. Correspondence: programs suspended at every kind of point x 5 edit kinds x 6 probes, implementation vs model incl. snapshots, with probe outcomes as oracle.",
+        "level_note": "Trusted: Lean kernel; hand-written model validated by sampling.",
+    },
+    "C16": {
+        "what": "each growth site of stack/arrays/variables respects its cap or typing rule: GOSUB and FN frames <= 32 with OUT OF MEMORY at the cap and the stack untouched, created arrays have prod(dims) cells <= 10000 and the kind of their suffix, scalars stored only with matching suffix",
+        "theorems": ["caps", "gosub_cap", "call_cap", "dimSizes_spec", "create_spec", "setVar_typed"],
+        "open": ["for_cap (<= 32 loops, no duplicate names, re-entry does not accumulate)", "arraySet / bindArgs typing", "lift to every reachable state of every session (WF invariant)"],
+        "slices": ["c16"],
+        "level_text": "Machine-checked theorems (Lean 4), for every state: the operation-level cap and typing facts at the only sites where the subroutine stack, the array table and the variable table grow. The loop-stack site and the lift to all reachable states are not yet proved; there the check rests on the correspondence slice (full state snapshot after EVERY host call of targeted cap / re-entry / typing programs and random walks, implementation vs model) and on the snapshot oracle (frames <= 32, loops <= 32 distinct, cells = prod dims <= 10000, kinds obey suffixes).",
+        "level_note": "PARTIAL proof. Hook: verif-hooks snapshot.",
+    },
+    "C17": {
+        "what": "the three places where flags are read only append Warning/Trace records, are the identity when the flag is off, and fire exactly when specified",
+        "theorems": ["warn_effect", "array_warning_iff", "trace_effect"],
+        "open": ["flags_transparent: the whole evaluator commutes with erasing flags and filtering the queue", "scalar warn_iff at term level", "trace_is_path"],
+        "slices": ["c17"],
+        "level_text": "Machine-checked theorems (Lean 4), for every state: warn / the undeclared-array warning / the trace step change nothing but the output queue, add exactly one record of their kind exactly under the stated condition, and are the identity with the flag off. The whole-evaluator transparency theorem is not yet proved; the check rests for it on the correspondence slice and the four-configuration oracle on the implementation (filtered transcripts and final snapshots equal across (w,t) in {0,1}^2, flags set via API fields or TRACE/NOTRACE).",
+        "level_note": "PARTIAL proof.",
+    },
     "C18": {
         "what": "RND: state reduced mod 2^33 by randomize, positive argument = one step of the documented LCG (no 64-bit overflow possible), RND(0) repeats, negative argument errors without advancing, k-th value is a pure function of seed mod 2^33",
         "theorems": ["constants", "step_is_lcg", "seed_reduced", "seed_congruence", "step_in_range", "no_overflow", "rnd_negative", "rnd_zero",
